@@ -893,7 +893,35 @@ def rule_input_index_bounded(ctx: Ctx, rep: Report) -> None:
         up3 = has(cs3, ix, ">=", f"len({ps}.inputs)") is not None or has(cs3, ix, ">", f"len({ps}.inputs) - 1") is not None
         rep.ob(rule, f"{f3.name}:index", lo3 and up3, f3.where(), f"`{ix}` is held to the psbt's inputs" if lo3 and up3 else
                f"`{ps}.inputs[{ix}]` is read with `{ix}` unasked (refusals: {[c.show() for c in cs3][:3]}): past the end an IndexError, below zero the hash of another input")
-    rep.floor(rule, 5)
+    # ... and every other function of the psbt protocol modules that reads `<psbt>.inputs[<int parameter>]`:
+    # the bound is its own, or that of a helper it calls first with the same two arguments
+    def bounded(f_, ps_, ix_, depth=0) -> bool:
+        cs_ = refusal_constraints(ctx, f_)
+        if (has_bound(cs_, "<", 0, subject=ix_) is not None or has_bound(cs_, "<=", -1, subject=ix_) is not None) and \
+                (has(cs_, ix_, ">=", f"len({ps_}.inputs)") is not None or has(cs_, ix_, ">", f"len({ps_}.inputs) - 1") is not None):
+            return True
+        if depth >= 2:
+            return False
+        first_read = min([x.lineno for x in own_nodes(f_.node) if isinstance(x, ast.Subscript) and str(norm(x.value)) == f"{ps_}.inputs" and isinstance(x.slice, ast.Name) and x.slice.id == ix_] or [10 ** 9])
+        for c in own_nodes(f_.node):
+            if isinstance(c, ast.Call) and c.lineno <= first_read and len(c.args) >= 2 and isinstance(c.args[0], ast.Name) and c.args[0].id == ps_ and isinstance(c.args[1], ast.Name) and c.args[1].id == ix_:
+                callee = ctx.prog.functions.get(ctx.resolve_call(f_, c) or "")
+                if callee is not None and callee is not f_ and len(callee.params()) >= 2 and bounded(callee, callee.params()[0], callee.params()[1], depth + 1):
+                    return True
+        return False
+    for q4, f4 in sorted(ctx.prog.functions.items()):
+        if not q4.startswith(("btclib.psbt.musig2.", "btclib.psbt.silent_payments.")) or f4.name.startswith("_"):
+            continue
+        a4 = f4.node.args
+        ints4 = {p_.arg for p_ in a4.posonlyargs + a4.args if p_.annotation is not None and str(norm(p_.annotation)) == "int"}
+        reads = {(str(norm(x.value.value)), x.slice.id) for x in own_nodes(f4.node) if isinstance(x, ast.Subscript) and isinstance(x.value, ast.Attribute) and x.value.attr == "inputs"
+                 and isinstance(x.value.value, ast.Name) and x.value.value.id in f4.params() and isinstance(x.slice, ast.Name) and x.slice.id in ints4}
+        calls_helper = any(isinstance(c, ast.Call) and len(c.args) >= 2 and isinstance(c.args[1], ast.Name) and c.args[1].id in ints4 for c in own_nodes(f4.node))
+        for ps4, ix4 in sorted(reads):
+            ok4 = bounded(f4, ps4, ix4)
+            rep.ob(rule, f"{f4.module.name.rsplit('.', 1)[-1]}.{f4.name}:index", ok4, f4.where(), f"`{ix4}` is held to the psbt's inputs before `{ps4}.inputs[{ix4}]`" if ok4 else
+                   f"`{ps4}.inputs[{ix4}]` is read with `{ix4}` unasked: past the end an IndexError, below zero another input's maps")
+    rep.floor(rule, 9)
 
 
 RULES = [
